@@ -11,6 +11,9 @@ Import ListNotations.
 Open Scope string_scope.
 Open Scope list_scope.
 
+Definition header_path : string := "Manager.handlePotentialHeader".
+Definition data_path : string := "Manager.handlePotentialData".
+
 Lemma hmark_independent_of_seen : forall g hs ds sh,
   o_hmark (da_admit g hs ds (BHdr sh)) = o_hmark (da_admit g [] [] (BHdr sh)).
 Proof.
